@@ -225,6 +225,10 @@ func runWorker(bin, scratch string, job *Job, timeout time.Duration) ([]map[stri
 		}
 		return lines, fmt.Errorf("%v\n%s", werr, tail)
 	}
+	if f := os.Getenv("VERIF_WORKER_OUTPUT"); f != "" {
+		// debugging aid: keep what the worker printed
+		os.WriteFile(f, stderr.Bytes(), 0o644)
+	}
 	return lines, nil
 }
 
